@@ -769,7 +769,9 @@ def evaluate(program, primary="real", do_names=True, do_cqasm=True, do_cross=Tru
             if r_.foreign:
                 what, oname, origin, _ = r_.foreign[0]
                 if not any(f["key"].startswith("C15:construct:state-carried-over") for f in res["failures"]):
-                    effect = "exported-gate-sequence-is-not-the-image-of-this-circuit" if ctx["observed"] != required else "gate-sequence-happens-to-be-right"
+                    # the ORDER of a nested export is a separate matter (sub-programs first); here: are these the gates of THIS circuit at all?
+                    same = isinstance(ctx["observed"], list) and collections.Counter(ctx["observed"]) == collections.Counter(required)
+                    effect = "exported-gates-happen-to-be-those-of-this-circuit" if same else "exported-gates-are-not-those-of-this-circuit"
                     fail("C15:construct:state-carried-over:openql-object-built-in-an-earlier-export-reused:" + effect,
                          "successive exports through the default factory are independent: every Program / Kernel of the exported program is constructed during "
                          "this export, and the executed sequence is the image of THIS circuit",
